@@ -101,13 +101,13 @@ def blocks_coq(blocks):
     for b in blocks:
         x = b["exit"]
         if x[0] == "term":
-            e = "XTerminate"
+            e = "ATerminate"
         elif x[0] == "fall":
-            e = f"(XFallThrough {x[1]})"
+            e = f"(AFallThrough {x[1]})"
         elif x[0] == "jump":
-            e = f"(XUnconditional {expr_coq(x[1])})"
+            e = f"(AUnconditional {expr_coq(x[1])})"
         else:
-            e = f"(XBranch {expr_coq(x[1])} {expr_coq(x[2])} {x[3]})"
+            e = f"(ABranch {expr_coq(x[1])} {expr_coq(x[2])} {x[3]})"
         items.append(f"mkab {b['off']} {'true' if b['jt'] else 'false'} {e}")
     return "[" + "; ".join(items) + "]"
 
